@@ -412,11 +412,21 @@ def build_model(rnd, kind=None):
     from PEPit import PEP, Point, Expression
     import PEPit.functions as PF, PEPit.operators as PO
     from PEPit.primitive_steps import proximal_step
-    kinds = ["gd_ssc", "gd_sc", "pgd", "ppa_op", "gd_quad", "lmi_user", "two_metrics", "blocks", "qg", "linop", "composite", "lmi_function", "lmi_two_sources", "lmi_nonsym", "dup_constraint"]
+    kinds = ["gd_ssc", "gd_sc", "pgd", "ppa_op", "gd_quad", "lmi_user", "two_metrics", "blocks", "qg", "linop", "composite", "lmi_function", "lmi_two_sources", "lmi_nonsym", "dup_constraint", "tiny_multiplier"]
     kind = kind or rnd.choice(kinds)
     pep = PEP(); info = dict(kind=kind)
     mu, L = rnd.choice([0.1, 0.25, 0.5]), rnd.choice([1.0, 2.0]); gamma = rnd.choice([0.5, 1.0, 1.5]) / L; n = rnd.randint(1, 2)
     info.update(mu=mu, L=L, gamma=gamma, n=n)
+    if kind == "tiny_multiplier":
+        # a flat function on a large ball: the active initial condition carries the whole constant of the proof with a
+        # multiplier L^2 / 4 of order 1e-9 (the worst-case squared gradient norm is L^2 R^2 / 4 = 1/4)
+        Ls = rnd.choice([1e-4, 2e-4]); R = 1.0 / Ls
+        f = pep.declare_function(PF.SmoothConvexFunction, L=Ls)
+        xs = f.stationary_point(); x0 = pep.set_initial_point(); pep.set_initial_condition((x0 - xs) ** 2 <= R ** 2)
+        x1 = x0 - 1 / Ls * f.gradient(x0)
+        pep.set_performance_metric(f.gradient(x1) ** 2)
+        info.update(L=Ls, R=R)
+        return pep, info
     if kind == "dup_constraint":
         # the same Constraint object (with a constant term) registered on the PEP and on a function: it is declared twice
         f = pep.declare_function(PF.SmoothStronglyConvexFunction, mu=mu, L=L)
@@ -519,6 +529,15 @@ def certificate_check(pep, tau, info, desc, oracle_name):
     scale = max(1.0, abs(tau)); desc = dict(desc, nonsymmetric_lmi=nonsym)
     if resid > 1e-4 * scale:
         fails.append(dict(what="certificate identity does not close: |residual coefficients| = %.3e" % resid, oracle=oracle_name, input=desc, observed=resid, expected="<= 1e-4", tags=tags))
+    # coefficients that look negligible can multiply large Gram entries (badly scaled models): the identity must also
+    # close when evaluated at the instance the solver returned
+    try:
+        left = float((pep.objective - comb - const).eval())
+        if abs(left) > 1e-4 * scale and not resid > 1e-4 * scale:
+            fails.append(dict(what="certificate identity leaves %.3e when evaluated at the instance returned by the solver (badly scaled model: small coefficients, large Gram entries)" % left,
+                              oracle=oracle_name, input=desc, observed=left, expected="<= 1e-4", tags=tags))
+    except Exception:
+        pass
     if lam_min < -1e-5 * scale or s_min < -1e-5 * scale or L_min < -1e-5 * scale:
         fails.append(dict(what="multiplier sign / PSD violated: min lambda %.2e, min eig S %.2e, min eig Lambda %.2e" % (lam_min, s_min, L_min), oracle=oracle_name, input=desc, tags=tags))
     if abs(const - tau) > 1e-7 * scale:
@@ -810,6 +829,13 @@ def c01_certificate(n, seed, procs):
         desc = dict(seed=seed, it=it, model=info, nonsymmetric_lmi=nonsym)
         if resid > 1e-4 * scale:
             fails.append(dict(what="certificate identity does not close: |residual coefficients| = %.3e" % resid, oracle="c01_certificate", input=desc, observed=resid, expected="<= 1e-4", tags=tags))
+        try:
+            left = float((ident - const).eval())       # the identity evaluated at the instance returned by the solver
+            if abs(left) > 1e-4 * scale and not resid > 1e-4 * scale:
+                fails.append(dict(what="certificate identity leaves %.3e when evaluated at the instance returned by the solver (small coefficients on large Gram entries)" % left,
+                                  oracle="c01_certificate", input=desc, observed=left, expected="<= 1e-4", tags=tags))
+        except Exception:
+            pass
         if lam_min < -1e-5 * scale or s_min < -1e-5 * scale or L_min < -1e-5 * scale:
             fails.append(dict(what="multiplier sign / PSD violated: min lambda %.2e, min eig S %.2e, min eig Lambda %.2e" % (lam_min, s_min, L_min), oracle="c01_certificate", input=desc, tags=tags))
         if abs(const - tau) > 1e-7 * scale:
@@ -919,6 +945,8 @@ def c16_unsolved(n, seed, procs):
         distinct.add((mode, it % 7))
         if mode == "unsolved":
             probe(objs, desc, "before any solve")
+            f.set_class_constraints()            # the tables of constraints exist, none of the constraints has a multiplier
+            probe([("function (dual tables)", f, ["get_class_constraints_duals"])], desc, "before any solve")
         else:
             if mode == "unbounded":
                 pep.set_performance_metric((x1 - xs) ** 2)                 # no initial condition: unbounded
@@ -940,6 +968,7 @@ def c16_unsolved(n, seed, procs):
             elif r is not None:
                 fails.append(dict(what="solve returned %r (not None) for an %s model" % (r, mode), oracle="c16_unsolved", input=desc, tags=["c16"]))
             probe(objs, desc, "after a solve that found no finite value")
+            probe([("function (dual tables)", f, ["get_class_constraints_duals"])], desc, "after a solve that found no finite value")
         if it % 3 == 0:
             # after a successful solve of another model: objects involving a leaf created afterwards have no value
             pep3 = PEP(); f3 = pep3.declare_function(PF.SmoothConvexFunction, L=1.); xs3 = f3.stationary_point(); y0 = pep3.set_initial_point()
